@@ -1,10 +1,11 @@
 import AdeptProofs.Lemmas.Special
+import AdeptProofs.Lemmas.SpecialTape
 /-!
 # C17 — special matrices behave as the dense matrices they stand for
 
 Property theorems only; helper lemmas and the specification vocabulary (`WF`, `InPattern`, `isSymm`,
-`Canonical`, `SM.Adm`, `RExpr.val`, `SM.Stores`, `AExpr.Stores`, `AExpr.AllAdm`, `AExpr.DimIs`) live in
-`AdeptProofs/Lemmas/Special.lean`.
+`Canonical`, `SM.Adm`, `RExpr.val`, `SM.Stores`, `AExpr.Stores`, `AExpr.AllAdm`, `AExpr.DimIs`, `AExpr.Plain`,
+`SM.canonPositions`, `SM.addr`) live in `AdeptProofs/Lemmas/Special.lean` and `AdeptProofs/Lemmas/SpecialTape.lean`.
 
 All statements are about
 * `AdeptModel/Generated/Engines.lean` — the engine policy structs of `include/adept/SpecialMatrix.h`, regenerated
@@ -196,29 +197,30 @@ theorem C17_diag_matrix_view (n s b : Int) (hn : 1 ≤ n) (hs : 1 ≤ s) (d : Ra
     engine, size, offset and base address of target and leaves (blocks of one matrix, transposes, other matrices
     in the same Storage object).  The boundary matters: `data_end` points AT the last element, so the test must be
     `ptr_end >= mem1` (see the example below, where the two ranges share exactly one element). -/
-theorem C17_alias_conservative (m : SM) (ha : m.Adm) (rhs : AExpr) (hr : rhs.AllAdm)
+theorem C17_alias_conservative (m : SM) (ha : m.Adm) (rhs : AExpr) (hr : rhs.AllAdm) (hp : rhs.Plain)
     (h : rhs.isAliased m.dataBegin m.dataEnd = false) (k : Int) (hk : m.Stores k) : ¬ rhs.Stores k :=
-  fun hs => rhs.not_aliased_range _ _ h k (rhs.stores_in_range hr k hs) (m.stores_in_range ha k hk)
+  fun hs => rhs.not_aliased_range hp _ _ h k (rhs.stores_in_range hr k hs) (m.stores_in_range ha k hk)
 
 /-- self_assign_semantics: `M = rhs` (`SpecialMatrix::operator=(const Expression&)`: alias test, then either a
     temporary copy or the in-place row traversal in which every `next_value` reads the storage as the previous
     stores left it) where the leaves of `rhs` are special matrices in M's OWN Storage object — anywhere in it,
-    overlapping M or not.  The result is "evaluate the whole right-hand side, then store": every position
+    overlapping M or not — written without `noalias` wrappers (`rhs.Plain`; a wrapper switches the test off, see
+    `C17_compound_semantics` for the one the compound operators add).  The result is "evaluate the whole right-hand side, then store": every position
     `get_row_range` enumerates holds the value the right-hand side had there BEFORE the statement (`rhs.bind d`
     reads the old storage `d`), and no other raw element changes.  All engines, sizes, offsets. -/
-theorem C17_self_assign_semantics (m : SM) (ha : m.Adm) (rhs : AExpr) (hr : rhs.AllAdm) (hn : rhs.DimIs m.dim)
-    (d : Raw) :
+theorem C17_self_assign_semantics (m : SM) (ha : m.Adm) (rhs : AExpr) (hr : rhs.AllAdm) (hp : rhs.Plain)
+    (hn : rhs.DimIs m.dim) (d : Raw) :
     (∀ i j : Int, 0 ≤ i → i < m.dim → 0 ≤ j → j < m.dim → Canonical m.e i j →
         m.assignExpr rhs d (m.base + m.e.index i j m.offset) = (rhs.bind d).val i j) ∧
     (∀ k : Int, (∀ i j : Int, 0 ≤ i → i < m.dim → 0 ≤ j → j < m.dim → Canonical m.e i j →
         k ≠ m.base + m.e.index i j m.offset) → m.assignExpr rhs d k = d k) :=
-  m.assignExpr_spec ha rhs hr hn d
+  m.assignExpr_spec ha rhs hr hp hn d
 
 /-- the same, as one equation: the statement leaves the storage exactly as the alias-free assignment
     (`C17_assign_raw`, `C17_assign_view`) from a snapshot of the storage taken before the statement -/
-theorem C17_self_assign_snapshot (m : SM) (ha : m.Adm) (rhs : AExpr) (hr : rhs.AllAdm) (hn : rhs.DimIs m.dim)
-    (d : Raw) (k : Int) : m.assignExpr rhs d k = m.assign (rhs.bind d) d k := by
-  obtain ⟨s1, s2⟩ := m.assignExpr_spec ha rhs hr hn d
+theorem C17_self_assign_snapshot (m : SM) (ha : m.Adm) (rhs : AExpr) (hr : rhs.AllAdm) (hp : rhs.Plain)
+    (hn : rhs.DimIs m.dim) (d : Raw) (k : Int) : m.assignExpr rhs d k = m.assign (rhs.bind d) d k := by
+  obtain ⟨s1, s2⟩ := m.assignExpr_spec ha rhs hr hp hn d
   obtain ⟨a1, a2⟩ := m.assign_raw ha (rhs.bind d) (rhs.bind_allAdm hr d) d
   by_cases hk : ∃ i j : Int, 0 ≤ i ∧ i < m.dim ∧ 0 ≤ j ∧ j < m.dim ∧ Canonical m.e i j ∧
       k = m.base + m.e.index i j m.offset
@@ -227,6 +229,93 @@ theorem C17_self_assign_snapshot (m : SM) (ha : m.Adm) (rhs : AExpr) (hr : rhs.A
   · have hmiss : ∀ i j : Int, 0 ≤ i → i < m.dim → 0 ≤ j → j < m.dim → Canonical m.e i j →
         k ≠ m.base + m.e.index i j m.offset := fun i j hi0 hi hj0 hj hc heq => hk ⟨i, j, hi0, hi, hj0, hj, hc, heq⟩
     rw [s2 k hmiss, a2 k hmiss]
+
+/-- compound_semantics: the compound operators `M += rhs`, `M -= rhs`, `M *= rhs`, `M /= rhs`
+    (`*this = (noalias(*this) OP rhs)`: the alias test of `operator=` sees only `rhs`, the wrapped target is never
+    reported) for a right-hand side whose leaves are special matrices ANYWHERE in M's own Storage object (M itself,
+    its transpose, shifted sub-blocks, other blocks), dense operands, scalar multiples, sums and element-wise
+    operations.  Every position `get_row_range` enumerates holds `old M(i,j) OP rhs(i,j)` with `rhs` evaluated over
+    the storage as it was BEFORE the statement, and no other raw element changes (the zero structure and the rest of
+    the Storage object are kept).  For every operation `OP : Int → Int → Int`, every engine, size, offset. -/
+theorem C17_compound_semantics (m : SM) (ha : m.Adm) (o : BinOp) (rhs : AExpr) (hr : rhs.AllAdm) (hp : rhs.Plain)
+    (hn : rhs.DimIs m.dim) (d : Raw) :
+    (∀ i j : Int, 0 ≤ i → i < m.dim → 0 ≤ j → j < m.dim → Canonical m.e i j →
+        m.compound o rhs d (m.base + m.e.index i j m.offset)
+          = o.apply (d (m.base + m.e.index i j m.offset)) ((rhs.bind d).val i j)) ∧
+    (∀ k : Int, (∀ i j : Int, 0 ≤ i → i < m.dim → 0 ≤ j → j < m.dim → Canonical m.e i j →
+        k ≠ m.base + m.e.index i j m.offset) → m.compound o rhs d k = d k) :=
+  m.compound_spec ha o rhs hr hp hn d
+
+/-- the compound operators with a scalar on the right, `M += c`, `M -= c`, `M *= c`, `M /= c`: every position
+    `get_row_range` enumerates holds `old M(i,j) OP c`, nothing else changes -/
+theorem C17_compound_scalar_semantics (m : SM) (ha : m.Adm) (o : BinOp) (c : Int) (d : Raw) :
+    (∀ i j : Int, 0 ≤ i → i < m.dim → 0 ≤ j → j < m.dim → Canonical m.e i j →
+        m.compoundScalar o c d (m.base + m.e.index i j m.offset) = o.apply (d (m.base + m.e.index i j m.offset)) c) ∧
+    (∀ k : Int, (∀ i j : Int, 0 ≤ i → i < m.dim → 0 ≤ j → j < m.dim → Canonical m.e i j →
+        k ≠ m.base + m.e.index i j m.offset) → m.compoundScalar o c d k = d k) :=
+  m.compoundScalar_spec ha o c d
+
+/-- hence the dense view after `M OP= rhs` is `(M OP rhs)` computed on the dense equivalents from the values before
+    the statement on the pattern (for a symmetric engine: the triangle its orientation designates, mirrored) and
+    zero elsewhere -/
+theorem C17_compound_view (m : SM) (ha : m.Adm) (o : BinOp) (rhs : AExpr) (hr : rhs.AllAdm) (hp : rhs.Plain)
+    (hn : rhs.DimIs m.dim) (d : Raw) (i j : Int) (hi0 : 0 ≤ i) (hi : i < m.dim) (hj0 : 0 ≤ j) (hj : j < m.dim) :
+    (Canonical m.e i j → m.get (m.compound o rhs d) i j = o.apply (m.get d i j) ((rhs.bind d).val i j)) ∧
+    (isSymm m.e = true → Canonical m.e j i →
+        m.get (m.compound o rhs d) i j = o.apply (m.get d j i) ((rhs.bind d).val j i)) ∧
+    (¬ InPattern m.e i j → m.get (m.compound o rhs d) i j = 0) := by
+  obtain ⟨h1, _⟩ := m.compound_spec ha o rhs hr hp hn d
+  refine ⟨fun hc => ?_, fun hs hc => ?_, fun hnp => (m.get_eq _ i j).2 hnp⟩
+  · rw [(m.get_eq _ i j).1 (canonical_pattern _ _ _ hc), (m.get_eq d i j).1 (canonical_pattern _ _ _ hc)]
+    exact h1 i j hi0 hi hj0 hj hc
+  · rw [(m.get_eq _ i j).1 (symm_all_pattern _ hs i j), (m.get_eq d j i).1 (symm_all_pattern _ hs j i),
+      index_mirror m.e hs]
+    exact h1 j i hj0 hj hi0 hi hc
+
+/-- the positions a statement writes (`SM.canonPositions`: row by row, the columns `get_row_range` enumerates) are
+    exactly the canonical positions inside the dimension, each listed once, and different positions have different
+    addresses -/
+theorem C17_written_positions (m : SM) (ha : m.Adm) :
+    (∀ p : Int × Int, p ∈ m.canonPositions ↔
+        (0 ≤ p.1 ∧ p.1 < m.dim ∧ 0 ≤ p.2 ∧ p.2 < m.dim ∧ Canonical m.e p.1 p.2)) ∧
+    m.canonPositions.Nodup ∧ (m.canonPositions.map m.addr).Nodup :=
+  ⟨m.mem_canonPositions ha, m.canonPositions_nodup, m.canonAddrs_nodup ha⟩
+
+/-- active_scalar_statements: `A = x` for an ACTIVE special matrix (any engine / orientation / sub-block / `A.T()`
+    lvalue) and an active scalar `x` with gradient index `gx`, while recording
+    (`operator=(const Active<PType>&)`): the values stored are those of the passive scalar assignment (`val` at every
+    canonical position, nothing else touched), and the tape receives exactly one statement per written position, in
+    row order, whose left-hand side is `gradient_index() + index` of THAT stored element and whose single operation
+    is `(1.0, gx)` -/
+theorem C17_active_scalar_statements (m : SM) (ha : m.Adm) (val gx : Int) (d : Raw) :
+    m.assignActiveScalar val gx d
+      = (m.assign (.dense (fun _ _ => val)) d, m.canonPositions.map (fun p => (⟨m.addr p, [(1, gx)]⟩ : SM.Stmt))) :=
+  m.assignActiveScalar_eq ha val gx d
+
+/-- passive_scalar_statements: `A = c` for an active special matrix and a passive scalar
+    (`assign_inactive_scalar<true>`, one `push_lhs_range` per row): one statement WITHOUT operations per written
+    position, in row order, left-hand side = gradient index of the stored element -/
+theorem C17_passive_scalar_statements (m : SM) (ha : m.Adm) :
+    m.recPassiveScalar.map SM.Stmt.lhs = m.canonPositions.map m.addr ∧ ∀ s ∈ m.recPassiveScalar, s.ops = [] :=
+  ⟨m.recPassiveScalar_lhs ha, m.recPassiveScalar_ops⟩
+
+/-- active_expr_statements: `A = rhs` for an active special matrix and an active expression
+    (`assign_expression_<true,true>`): one statement per written position, in row order; its left-hand side is the
+    gradient index of the stored element, its operations are those the right-hand side pushes at that (i,j) -/
+theorem C17_active_expr_statements (m : SM) (ha : m.Adm) (rhs : AExpr) (hr : rhs.AllAdm) :
+    (m.recExpr rhs).map SM.Stmt.lhs = m.canonPositions.map m.addr ∧
+    (m.recExpr rhs).map SM.Stmt.ops = m.canonPositions.map (fun p => (rhs.setLocation p.1 p.2).grads 1) :=
+  ⟨m.recExpr_lhs ha rhs, m.recExpr_ops rhs hr⟩
+
+/-- an active special-matrix leaf positioned at (i,j) pushes `(multiplier, gradient index of its stored element
+    (i,j))` inside its pattern and nothing at a structural zero -/
+theorem C17_leaf_gradient (m : SM) (ha : m.Adm) (l : SM.Loc) (i j mult : Int) :
+    (InPattern m.e i j → ((AExpr.sm m l).setLocation i j).grads mult = [(mult, m.base + m.e.index i j m.offset)]) ∧
+    (¬ InPattern m.e i j → ((AExpr.sm m l).setLocation i j).grads mult = []) := by
+  simp only [AExpr.setLocation, AExpr.grads, SM.setLocation]
+  rw [value_at_spec m.e ha.wf m.dim m.offset i j ha.dim_pos ha.off]
+  exact ⟨fun h => by rw [(get_scalar_spec m.e i j m.dim m.offset).1 h],
+         fun h => by rw [(get_scalar_spec m.e i j m.dim m.offset).2 h]⟩
 
 /-! Non-vacuity.  The hypotheses (`WF`, `SM.Adm`, `AllAdm`) are met by every matrix the library can create; in
 particular by the packed column-major diagonal matrix (offset 0) that finding F-27 was about, and the theorems
@@ -258,5 +347,25 @@ example : ∃ x y, (SM.packed .SquareEngine_ROW_MAJOR 5).sub 2 4 = some x ∧ (S
 example : ∃ x y, (SM.packed .SquareEngine_ROW_MAJOR 5).sub 3 4 = some x ∧ (SM.packed .SquareEngine_ROW_MAJOR 5).sub 0 1 = some y ∧
     (AExpr.scale (.leaf y) 2).isAliased x.dataBegin x.dataEnd = false ∧ (AExpr.scale (.leaf y) 2).DimIs x.dim :=
   ⟨_, _, rfl, rfl, by decide, rfl⟩
+
+/-! Compound operators.  `S -= S.T()` for the 2x2 `SquareMatrix` holding 1,2,3,4: `operator-=` builds
+`noalias(S) - S.T()`, the alias test sees `S.T()`, answers true, and the statement stores `{{0,-1},{1,0}}`.  With the
+wrapper around the WHOLE right-hand side (`noalias(S - S.T())`, the variant the property excludes) the test is
+switched off, the in-place traversal reads the already overwritten S(0,1) when it computes S(1,0), and the result is
+`{{0,-1},{4,0}}` — so the hypothesis `rhs.Plain` of `C17_compound_semantics` cannot be dropped. -/
+example : (SM.packed .SquareEngine_ROW_MAJOR 2).Adm ∧
+    (AExpr.leaf (SM.packed .SquareEngine_ROW_MAJOR 2).T).Plain ∧ (AExpr.leaf (SM.packed .SquareEngine_ROW_MAJOR 2).T).AllAdm ∧
+    (AExpr.leaf (SM.packed .SquareEngine_ROW_MAJOR 2).T).DimIs (SM.packed .SquareEngine_ROW_MAJOR 2).dim :=
+  ⟨⟨trivial, by decide, by decide⟩, trivial, ⟨trivial, by decide, by decide⟩, rfl⟩
+example : let S := SM.packed .SquareEngine_ROW_MAJOR 2
+    (List.range 4).map (fun (k : Nat) => S.compound .sub (.leaf S.T) ⟨fun k => k + 1⟩ k) = [0, -1, 1, 0] ∧
+    (List.range 4).map (fun (k : Nat) =>
+      S.assignExpr (.noalias (.bin .sub (.leaf S) (.leaf S.T))) ⟨fun k => k + 1⟩ k) = [0, -1, 4, 0] := by decide
+/-! Active matrices.  `A.T() = x` for a 3x3 active `LowerMatrix` A (the lvalue `A.T()` is a column-major upper
+matrix on A's storage, index stride 3 along a row): the written positions are (0,0) (0,1) (0,2) (1,1) (1,2) (2,2) and
+the recorded left-hand sides are the raw elements 0, 3, 6, 4, 7, 8 of A — not 0, 1, 2, … -/
+example : (SM.packed .LowerEngine_ROW_MAJOR 3).T.canonPositions = [(0, 0), (0, 1), (0, 2), (1, 1), (1, 2), (2, 2)] ∧
+    ((SM.packed .LowerEngine_ROW_MAJOR 3).T.assignActiveScalar 5 (-1) ⟨fun k => k + 1⟩).2.map SM.Stmt.lhs = [0, 3, 6, 4, 7, 8] := by
+  decide
 
 end Adept.Special
